@@ -19,6 +19,19 @@ for d in sorted(glob.glob(os.path.join(V, "seeded", "*-*"))):
             if line and not line.startswith("#") and len(line) > 20:
                 notes = re.sub(r"[`*|]", "", line)[:170]
                 break
+    # what the change needs in order to manifest: meta.needs, else the author's own sentence
+    needs = m.get("needs", "")
+    if not needs and os.path.exists(np_):
+        lines = open(np_).read().splitlines()
+        for k, line in enumerate(lines):
+            if re.search(r"need(ed|s)?\b.*(manifest|see it|trigger)|what (it|is) need|\*\*trigger|^- \*\*what it needs|needed to|what is needed|trigger:", line, re.I):
+                txt2 = " ".join(l.strip() for l in lines[k:k + 3])
+                txt2 = re.sub(r"[`*|#]", "", txt2)
+                txt2 = re.sub(r"^[\s\-]*(what is needed( to manifest| to see it)?|needed to manifest|what it needs( to manifest)?|what is needed|needed|trigger|what it needs)[\s:.\-]*", "", txt2, flags=re.I)
+                needs = txt2.strip()[:230]
+                break
+    if not needs:
+        needs = notes
     conf = m.get("confirmation", {})
     res = dict(m.get("preliminary_results", {}))
     res.update(m.get("check_results", {}))  # the run with the patch applied to /repo itself wins
@@ -30,7 +43,7 @@ for d in sorted(glob.glob(os.path.join(V, "seeded", "*-*"))):
         det = res[k].get("detail") or [""]
         how = re.sub(r"[|]", "/", det[0].strip())[:110]
         break
-    rows.append((name, "yes" if conf.get("confirmed") else "NO", (", ".join(caught) + " (" + via + ")") if caught else "-", ", ".join(missed) or "-", m.get("needs", notes), how, m.get("remark", "")))
+    rows.append((name, "yes" if conf.get("confirmed") else "NO", (", ".join(caught) + " (" + via + ")") if caught else "-", ", ".join(missed) or "-", needs, how, m.get("remark", "")))
 print("| change | confirmed (suite passes, demo fails) | caught by | passed (missed) | what it needs to manifest | first report | remark |")
 print("|---|---|---|---|---|---|---|")
 for r in rows:
